@@ -379,7 +379,7 @@ Theorem full_sampling_nested Phi en Vf (U : dict expr) (a : nn_arg)
   Permutation (keys U) (full_set strata) ->
   (forall k e, In (k, e) U -> evalX Phi e en = XR (Vf k)) ->
   nests_ok Phi en (nn_arg_nests a) ->
-  (forall m, In m (nn_arg_nests a) -> NoDup (nn_alts m) /\ incl (nn_alts m) (full_set mev)) ->
+  (forall m, In m (nn_arg_nests a) -> incl (nn_alts m) (full_set mev)) ->
   sample_holds Phi en Vf "" idcol log_proba_col 0 (ids rows) (map row_corr rows) us ->
   sample_holds Phi en Vf pre idcol mev_weight_col j0 (ids mrows) (map row_weight mrows) ums ->
   pvX Phi en ch = XR (IZR c) ->
@@ -387,7 +387,9 @@ Theorem full_sampling_nested Phi en Vf (U : dict expr) (a : nn_arg)
   get_nested_logit pre idcol us j0 ums (nn_arg_nests a) = Ok t ->
   evalX Phi t en = evalX Phi l en.
 Proof.
-  intros Hwf Hfull Hv Hwfm Hfullm Hvm HP HU Hok Hnd Hs1 Hs2 Hch El Et.
+  intros Hwf Hfull Hv Hwfm Hfullm Hvm HP HU Hok Hinc0 Hs1 Hs2 Hch El Et.
+  assert (Hnd : forall m, In m (nn_arg_nests a) -> NoDup (nn_alts m) /\ incl (nn_alts m) (full_set mev))
+    by (intros m Hm; split; [exact (lognested_ok_nodup _ _ _ _ _ El m Hm) | exact (Hinc0 m Hm)]).
   set (one := fun _ : Z => 1).
   assert (Hav : av_ok Phi en None one) by (intros k; reflexivity).
   destruct (lognested_value Phi en U None one Vf Hav (fun k e H _ => HU k e H) a ch l I Hok El)
@@ -732,10 +734,10 @@ Proof.
 Qed.
 
 (* ================================================================== a nest that lists an alternative twice *)
-(* The validators of nests.py accept a nest whose list repeats an alternative.  models.lognested then
-   counts that alternative twice in the nest sum (bioMultSum over the list), the sample builder once
-   (BelongsTo a set): the two log likelihoods differ.  Witness: alternatives 1, 2 with utility 0, one nest
-   [1; 1] with parameter 2, alternative 2 chosen. *)
+(* A nest whose list repeats an alternative is REFUSED by the validators of nests.py (repaired: it used
+   to be accepted, models.lognested then counted the alternative twice in the nest sum while the sample
+   builder -- BelongsTo a set -- counts it once).  Witness: alternatives 1, 2, one nest [1; 1].  All the
+   other hypotheses of full_sampling_nested hold on it (rf_hyps). *)
 Local Open Scope Z_scope.
 Fixpoint assocR0 (n : string) (l : list (string * R)) : option R :=
   match l with [] => None | (k, v) :: r => if String.eqb n k then Some v else assocR0 n r end.
@@ -782,73 +784,9 @@ Proof.
   unfold pvX. simpl. f_equal. unfold D2R. simpl. lra.
 Qed.
 
-Lemma rf_trees : exists l t,
-  lognested (pe_dict rf_U) None rf_nn (PN (1, 1)) = Ok l /\
-  get_nested_logit mev_prefix "alt_id" rf_us 0 rf_ums (nn_arg_nests rf_nn) = Ok t.
-Proof. eexists. eexists. split; vm_compute; reflexivity. Qed.
-
-Lemma rf_real (c2 X : R) :
-  c2 = (1 / 2 - 1)%R ->
-  (0 + (0 + 0) - ln (exp (0 + (0 + 0)) + (exp (0 + (X * 0 + c2 * ln (exp (2 * 0) + (0 + 0)) + 0)) + 0))
-   <> 0 + 0 - ln (exp (0 + (X * 0 + c2 * ln (exp (2 * 0) + (exp (2 * 0) + 0)))) + (exp (0 + 0) + 0)))%R.
-Proof.
-  intros -> H.
-  replace (2 * 0)%R with 0%R in H by ring. rewrite exp_0 in H.
-  replace (1 + (0 + 0))%R with 1%R in H by ring. rewrite ln_1 in H.
-  replace (0 + (X * 0 + (1 / 2 - 1) * 0 + 0))%R with 0%R in H by ring.
-  replace (0 + (0 + 0))%R with 0%R in H by ring.
-  replace (0 + 0)%R with 0%R in H by ring. rewrite exp_0 in H.
-  replace (1 + (1 + 0))%R with 2%R in H by ring.
-  replace (0 + (X * 0 + (1 / 2 - 1) * ln 2))%R with ((1 / 2 - 1) * ln 2)%R in H by ring.
-  assert (E : ln 2 = ln (exp ((1 / 2 - 1) * ln 2) + (1 + 0))) by lra.
-  apply ln_inv in E; [|lra|pose proof (exp_pos ((1 / 2 - 1) * ln 2)); lra].
-  assert (E2 : exp ((1 / 2 - 1) * ln 2) = exp 0) by (rewrite exp_0; lra).
-  apply exp_inv in E2. pose proof ln_lt_2. lra.
-Qed.
-
-Theorem rf_differs Phi l t :
-  lognested (pe_dict rf_U) None rf_nn (PN (1, 1)) = Ok l ->
-  get_nested_logit mev_prefix "alt_id" rf_us 0 rf_ums (nn_arg_nests rf_nn) = Ok t ->
-  evalX Phi t rf_en <> evalX Phi l rf_en.
-Proof.
-  intros El Et.
-  destruct (rf_hyps Phi) as (H1 & H2 & H3 & H4 & H5 & H6 & H7 & H8 & H9 & H10 & H11).
-  rewrite (sampled_nested_value Phi rf_en rf_Vf rf_strata rf_strata 2 rf_rows rf_mrows "alt_id" mev_prefix
-             rf_us 0%nat rf_ums (nn_arg_nests rf_nn) t H1 H2 H3 H1 H2 H4 eq_refl
-             (fun m Hm => match Hm with or_introl E => ltac:(subst m; discriminate) | or_intror F => match F with end end)
-             H7 H8 H9 H10 Et).
-  set (one := fun _ : Z => 1%R).
-  assert (Hav : av_ok Phi rf_en None one) by (intros k; reflexivity).
-  destruct (lognested_value Phi rf_en rf_U None one rf_Vf Hav (fun k e H _ => H6 k e H) rf_nn (PN (1, 1)) l I H7 El)
-    as (n & zd & En & _ & Hall).
-  assert (E0 : nl_make (pe_dict rf_U) rf_nn = Ok (mkNL [1; 2] [rf_nest] [2])) by reflexivity.
-  rewrite E0 in En. injection En as <-.
-  destruct (Hall 2 (PN (1, 1)) (or_intror (or_introl eq_refl)) H11) as (l' & El' & _ & Hl' & _).
-  rewrite El in El'. injection El' as <-. rewrite Hl'. unfold one at 1. rewrite Rnz_1.
-  intros Heq. injection Heq as Heq. revert Heq.
-  unfold hsample, gsum, ssum, hnl, gnl, find_nest, den, nsum, rf_Vf, one. cbn.
-  rewrite !Rnz_1. apply rf_real.
-  apply (c2_exact Phi rf_en (PE (EBeta "mu" false)) 2 I eq_refl). lra.
-Qed.
-
-Theorem nested_repeated_alternative_refuted : forall Phi,
-  exists en Vf (U : dict expr) (a : nn_arg) strata mev c rows mrows idcol pre us j0 ums ch l t,
-    wf_strata strata /\ fully_sampled strata /\ valid_sample strata c rows /\
-    wf_strata mev /\ fully_sampled mev /\ valid_mev_sample mev mrows /\
-    Permutation (keys U) (full_set strata) /\
-    (forall k e, In (k, e) U -> evalX Phi e en = XR (Vf k)) /\
-    nests_ok Phi en (nn_arg_nests a) /\
-    (forall m, In m (nn_arg_nests a) -> incl (nn_alts m) (full_set mev)) /\
-    sample_holds Phi en Vf "" idcol log_proba_col 0 (ids rows) (map row_corr rows) us /\
-    sample_holds Phi en Vf pre idcol mev_weight_col j0 (ids mrows) (map row_weight mrows) ums /\
-    pvX Phi en ch = XR (IZR c) /\
-    lognested (pe_dict U) None a ch = Ok l /\
-    get_nested_logit pre idcol us j0 ums (nn_arg_nests a) = Ok t /\
-    evalX Phi t en <> evalX Phi l en.
-Proof.
-  intros Phi. destruct rf_trees as (l & t & El & Et).
-  destruct (rf_hyps Phi) as (H1 & H2 & H3 & H4 & H5 & H6 & H7 & H8 & H9 & H10 & H11).
-  exists rf_en, rf_Vf, rf_U, rf_nn, rf_strata, rf_strata, 2, rf_rows, rf_mrows, "alt_id"%string, mev_prefix,
-         rf_us, 0%nat, rf_ums, (PN (1, 1)), l, t.
-  repeat (split; [assumption|]). now apply rf_differs.
-Qed.
+(* the validators refuse the nest (check_intersection: forallb nodupZ), whatever the choice; the sample
+   builder itself has no such test *)
+Theorem nested_repeated_alternative_refused :
+  (forall ch, lognested (pe_dict rf_U) None rf_nn ch = Err 1) /\
+  exists t, get_nested_logit mev_prefix "alt_id" rf_us 0 rf_ums (nn_arg_nests rf_nn) = Ok t.
+Proof. split; [intros ch; reflexivity | eexists; vm_compute; reflexivity]. Qed.
